@@ -11,7 +11,7 @@ against reference decompressors).
 "Terminates" is expressed with the models' explicit fuel: there is an amount of fuel from which on the
 result no longer depends on the fuel and is not "still running".
 -/
-import Sqfs.Proofs.XfrmWrapDec
+import Sqfs.Proofs.XfrmZstd
 namespace Sqfs.C15
 open Sqfs.Xfrm Sqfs.Xfrm.Spec
 
@@ -155,9 +155,15 @@ the accounting, the mapping of return codes, the reset at the end of a member an
 `total_in == 0 ? END : ERROR` — always leaves within `in_size + out_size + 2` rounds and, as a codec, meets `EncContract`
 resp. `DecContract`.  So all wrapper theorems above apply to the three backends.
 
-`_partial`: the full statement also covers `zstd.c` (`zstdBody`: libzstd's hint convention and the `pending` flag); that
-loop is modelled, instantiated (`Toy.encZLib`, `Toy.decZLib`) and compared with the C text on every run by harness (a'),
-but its contract theorem is not proved.  The unpatched loops provably do *not* meet the contracts (`Sqfs/Witness/C15.lean`).
+The third part is the compressing side of `zstd.c` (`zstdBody` with the `pending` flag and the decision after the loop) over
+any library following `ZSTD_compressStream2`'s convention (`ZEncContract`: the return value is 0 under `ZSTD_e_end` exactly
+when the frame is complete and flushed; a call with work and room does something).
+
+`_partial`: the full statement also covers the **decompressing side of `zstd.c`**.  That loop keeps decoding across frame
+boundaries inside one call and answers `END` only at the end of the input (pinned by the repo's `test_unpack_zstd`), which
+the per-member `DecContract` excludes; it is modelled (`zstdBody`, `Toy.decZLib`) and compared with the C text on every run by
+harness (a'), but no contract theorem is proved for it.  The unpatched loops provably do *not* meet the contracts
+(`Sqfs/Witness/C15.lean`).
 -/
 theorem process_data_meets_contract_partial {τ : Type} {L : Lib τ} {b : Backend} :
     (∀ (hL : LibEncContract L b Dec),
@@ -167,14 +173,21 @@ theorem process_data_meets_contract_partial {τ : Type} {L : Lib τ} {b : Backen
     (∀ (hL : LibDecContract L b Dec),
       (∀ {s : τ} {u v : Bytes} (w x tail inp : Bytes) (room : Nat) (fl : Flush), hL.R s u v → Dec (u ++ w) = some x →
         IsPre inp (w ++ tail) → (wrapProcess L b false s inp room fl).isSome = true) ∧
-      Nonempty (DecContract (wrapCodec L b false) Dec)) := by
-  refine ⟨fun hL => ⟨?_, ⟨wrapEncContract hL⟩⟩, fun hL => ⟨?_, ⟨wrapDecContract hL⟩⟩⟩
+      Nonempty (DecContract (wrapCodec L b false) Dec)) ∧
+    (∀ {ζ : Type} {Z : ZLib ζ} (hZ : ZEncContract Z Dec),
+      (∀ {s : ZState ζ} {x y : Bytes} {fin : Bool} (inp : Bytes) (room : Nat) (fl : Flush), ZEncR hZ s x y fin → Proto fin fl inp →
+        (zstdProcess Z true s inp room fl).isSome = true) ∧
+      Nonempty (EncContract (zstdCodec Z true) Dec)) := by
+  refine ⟨fun hL => ⟨?_, ⟨wrapEncContract hL⟩⟩, fun hL => ⟨?_, ⟨wrapDecContract hL⟩⟩, fun hZ => ⟨?_, ⟨zstdEncContract hZ⟩⟩⟩
   · intro s x y fin inp room fl hR hP
     obtain ⟨r, hr, _⟩ := wrapProcess_enc_spec hL inp room fl hR hP
     simp [hr]
   · intro s u v w x tail inp room fl hR hd hin
     obtain ⟨r, hr, _⟩ := wrapProcess_dec_spec hL w x tail inp room fl hR hd hin
     simp [hr]
+  · intro s x y fin inp room fl hR hP
+    obtain ⟨st', ai, ao, res, hrun, _⟩ := zstdProcess_enc_spec hZ inp room fl hR hP
+    simp [hrun]
 
 /-- hence: reading a `.tar.gz|xz|bz2` through `istream_xfrm` is transparent, and a cut-off input is an error, for every
 library meeting the decompression convention -/
@@ -238,8 +251,9 @@ theorem probe_spec (data : Bytes) :
 
 /-- Non-vacuity of the library-level convention: the toy library meets it under each backend's return-code convention. -/
 theorem toy_library_meets_convention (P : Toy.Params) (b : Backend) :
-    Nonempty (LibEncContract (Toy.encLib P b) b Toy.decode) ∧ Nonempty (LibDecContract (Toy.decLib P b) b Toy.decode) :=
-  ⟨⟨Toy.encLibContract P b⟩, ⟨Toy.decLibContract P b⟩⟩
+    Nonempty (LibEncContract (Toy.encLib P b) b Toy.decode) ∧ Nonempty (LibDecContract (Toy.decLib P b) b Toy.decode) ∧
+    Nonempty (ZEncContract (Toy.encZLib P) Toy.decode) :=
+  ⟨⟨Toy.encLibContract P b⟩, ⟨Toy.decLibContract P b⟩, ⟨Toy.encZLibContract P⟩⟩
 
 /-- Non-vacuity: the toy codec (internal queue, limited intake and output granularity, any knob setting) meets
 the encoder contract with the toy format's one-shot decoder. -/
